@@ -119,7 +119,7 @@ type SugarDB struct {
 	snapshotInProgress         atomic.Bool      // Atomic boolean that's true when actively taking a snapshot.
 	rewriteAOFInProgress       atomic.Bool      // Atomic boolean that's true when actively rewriting AOF file is in progress.
 	stateCopyInProgress        atomic.Bool      // Atomic boolean that's true when actively copying state for snapshotting or preamble generation.
-	stateMutationInProgress    atomic.Bool      // Atomic boolean that is set to true when state mutation is in progress.
+	stateMutations             atomic.Int32     // Number of write commands currently mutating the state (and logging the mutation).
 	latestSnapshotMilliseconds atomic.Int64     // Unix epoch in milliseconds.
 	snapshotEngine             *snapshot.Engine // Snapshot engine for standalone mode.
 	aofEngine                  *aof.Engine      // AOF engine for standalone mode.
